@@ -11,11 +11,19 @@ import (
 // given frame bytes: current keys and key phase of that sender, the connection ID its last
 // genuine 1-RTT packet used, and a packet number well above everything sent so far.
 func (c *ConnTap) ForgeShort(sender Dir, payload []byte) ([]byte, error) {
+	return c.ForgeShortTo(sender, nil, payload)
+}
+
+// ForgeShortTo is ForgeShort with an explicit destination connection ID (nil: the one the sender uses).
+func (c *ConnTap) ForgeShortTo(sender Dir, dcid []byte, payload []byte) ([]byte, error) {
 	c.w.mu.Lock()
 	defer c.w.mu.Unlock()
 	gens := c.oneRTT[sender]
 	if len(gens) == 0 || c.LastDCID[sender] == nil {
 		return nil, errors.New("wiretap: no 1-RTT keys / connection ID observed for that sender yet")
+	}
+	if dcid == nil {
+		dcid = c.LastDCID[sender]
 	}
 	g := len(gens) - 1
 	c.forged[sender]++
@@ -24,7 +32,7 @@ func (c *ConnTap) ForgeShort(sender Dir, payload []byte) ([]byte, error) {
 	if g%2 == 1 {
 		first |= 0x04
 	}
-	hdr := append([]byte{first}, c.LastDCID[sender]...)
+	hdr := append([]byte{first}, dcid...)
 	hdr = append(hdr, byte(pn>>24), byte(pn>>16), byte(pn>>8), byte(pn))
 	for len(payload) < 4 {
 		payload = append(payload, 0) // PADDING, so that a header protection sample exists
